@@ -167,6 +167,11 @@ func (c *Cursor) Next() error {
 }
 
 func (c *Cursor) Column(ctx *sqlite.VirtualTableContext, i int) error {
+	if ctx.NoChange() {
+		// UPDATE does not assign this column: leave it flagged no-change
+		// so that only the assigned columns get the statement's write time
+		return nil
+	}
 	v, err := c.common.Column(i)
 	if err != nil {
 		return toSqlite(err)
